@@ -8,7 +8,7 @@
 From AF Require Import Lib.Bytes Lib.Path Lib.Ops Gen.Consts Model.MemFile Model.MemFs Model.WfOps Model.CowView
   Model.ReadOnly Model.Union Model.Cow
   Proofs.MemFsPath Proofs.MemFsBasics Proofs.MemFsWF Proofs.MemBelow Proofs.MemFsStep Proofs.MemFsInv Proofs.PathProof
-  Proofs.CopyUpProof Proofs.CowLayer Proofs.CowFileOps.
+  Proofs.CopyUpProof Proofs.CowLayer Proofs.CowFileOps Proofs.CopyFailedCreate.
 Local Open Scope Z_scope.
 
 (* ---------------- an invariant of the overlay carried through io.Copy ---------------- *)
@@ -65,9 +65,18 @@ Lemma copy_tail_body sb sl1 name bh :
   copy_tail m_step m_step sb sl1 name bh =
   match m_step sl1 (Create name) with
   | (sl2, RHandle lh) => copy_body sb sl2 name bh lh
-  | (sl2, r) => (sb, sl2, match res_err r with Some e => Some e | None => Some (E KOther) end)
+  | (sl2, r) => (sb, after_failed_create m_step sl2 name, match res_err r with Some e => Some e | None => Some (E KOther) end)
   end.
 Proof. reflexivity. Qed.
+
+(* copyFile removes the name after a failed Create (today's source): when the layer has no such entry the Remove
+   is refused and only the clock moves *)
+Lemma failed_create_no_entry s name : lookup s (normalize_path name) = None ->
+  after_failed_create m_step s name = tick s.
+Proof.
+  intros Hno. rewrite after_failed_create_today, m_step_tick. cbn [m_step_raw fst]. unfold m_remove. cbv zeta.
+  now rewrite Hno.
+Qed.
 
 Lemma LI_FH nn g lh s d a : LI nn g lh s d a -> FH g lh s d (mkH g a 0 false false).
 Proof.
@@ -244,6 +253,8 @@ Proof.
         congruence. }
       rewrite copy_tail_body.
       rewrite (layer_create_below_file (tick sl) name d dn Hw Hno Hd Hdn Hdd).
+      (* copyFile removes the name after the failed Create: no such entry, the Remove is refused *)
+      rewrite (failed_create_no_entry (tick (tick sl)) name Hno).
       eexists. eexists. eexists. split; [reflexivity|].
       split; [|split; [|split; [discriminate | reflexivity]]].
       * (* the base handle is closed *)
